@@ -1,9 +1,10 @@
 import collections.abc
 try:
-    import dill as pickle
+    import dill
 except ImportError:
-    import pickle
+    dill = None
 import multiprocessing as mp
+import pickle
 import signal
 import time
 import traceback
@@ -551,11 +552,13 @@ class AbstractWorker:
         # <class ...>: it's not the same object as ...). We check that here by trying the pickle.dumps manually.
         # The call to `queue.put` creates a thread in which it pickles and when that raises an exception we
         # cannot catch it.
+        # The check has to use the pickler the queues use: dill can pickle more than pickle can
+        pickler = dill if self.pool_params.use_dill and dill is not None else pickle
         try:
-            pickle.dumps(type(err))
-            pickle.dumps(err.args)
-            pickle.dumps(err.__dict__)
-        except (pickle.PicklingError, TypeError):
+            pickler.dumps(type(err))
+            pickler.dumps(err.args)
+            pickler.dumps(err.__dict__)
+        except (pickle.PicklingError, TypeError, AttributeError):
             err = CannotPickleExceptionError(repr(err))
 
         return type(err), err.args, err.__dict__, traceback_str
